@@ -449,6 +449,25 @@ def emit_task(item):
                                       {'script': [list(map(repr, op)) for op in script], 'tabs': tabs}, repr(data[:300])))
                 else:
                     oc['verbatim'] += 1
+                if len(script) <= 2 and not diff:
+                    # history: the output folder already holds this file - identical, or differing in line ends / one byte only
+                    for variant, conv in (('same', lambda x: x), ('crlf', lambda x: x.replace(b'\n', b'\r\n')), ('cr', lambda x: x.replace(b'\n', b'\r')),
+                                          ('no-final-newline', lambda x: x.rstrip(b'\n')), ('longer', lambda x: x + b'tail\n')):
+                        with open(os.path.join(d, 'f.out'), 'wb') as f:
+                            f.write(conv(data))
+                        n += 1
+                        try:
+                            again = run_script(cls, script, d)
+                        except Exception as e:  # noqa
+                            out_v.append(viol('emit-over-existing-file:raised:%s' % variant, 'emit script %r over an existing file (%s) raised %r' % (script, variant, e),
+                                              {'script': [list(map(repr, op)) for op in script], 'tabs': tabs, 'existing': variant}))
+                            continue
+                        if again != data:
+                            oc['history-differs'] += 1
+                            out_v.append(viol('emit-over-existing-file:%s' % variant, 'emit script %r writes %r over an existing file (%s variant of its own output) but %r into an empty folder' % (
+                                script, again[:120], variant, data[:120]), {'script': [list(map(repr, op)) for op in script], 'tabs': tabs, 'existing': variant}))
+                        else:
+                            oc['history-same'] += 1
     finally:
         shutil.rmtree(d, ignore_errors=True)
     return {'outcome': oc, 'viol': out_v, 'n': n, 'transitions': n}
